@@ -34,7 +34,8 @@ Model/C13_Coanc.v), integer code into `Z`, the Yang square-root scaling addition
     k_maxinb_kin, k_mininb, k_mininb_kin, k_inverse_coan_arg / k_inverse_kin_arg (argument handed to numpy.linalg.inv),
     k_max_kin / k_min_kin / k_mean_kin (`out *= 0.5`), k_psd_clip_test / k_psd_clip_val / k_psd_ok
   wiring tables (strings)
-    k_labels      per from_gmat: which expression is handed to the constructor as mat / taxa / taxa_grp
+    k_labels      per from_gmat: which expression is handed to the constructor as mat / taxa / taxa_grp and which is assigned to the
+                  four group-metadata attributes of the new object (`copy gmat.X` = `gmat.X.copy() if gmat.X is not None else None`)
     k_factories   per factory: class called and the keyword -> argument map
     k_reductions  which numpy reduction each summary applies to which attribute
 
@@ -184,6 +185,9 @@ def _resolve_label(fn, e):
     return src(e)
 
 
+META = ("taxa_grp_name", "taxa_grp_stix", "taxa_grp_spix", "taxa_grp_len")
+
+
 def ctor_labels(fn, mat_names):
     call = the_call(fn, "cls")
     expect(not call.args, "%s: cls(...) has positional arguments" % fn.name)
@@ -193,7 +197,11 @@ def ctor_labels(fn, mat_names):
     ret = P.the_return(fn)
     outs = P.assignments_to(fn, src(ret))
     expect(len(outs) == 1 and outs[0].value is call, "%s: the returned object is not the constructed one" % fn.name)
-    return [("mat", src(kw["mat"])), ("taxa", _resolve_label(fn, kw["taxa"])), ("taxa_grp", _resolve_label(fn, kw["taxa_grp"]))]
+    row = [("mat", src(kw["mat"])), ("taxa", _resolve_label(fn, kw["taxa"])), ("taxa_grp", _resolve_label(fn, kw["taxa_grp"]))]
+    # the four group-metadata arrays are set on the constructed object afterwards: `out.<name> = e`, exactly once each
+    for name in META:
+        row.append((name, _resolve_label(fn, P.the_assignment(fn, "%s.%s" % (src(ret), name)))))
+    return row
 
 
 # ------------------------------------------------------------------------------------------------ the translation
@@ -400,7 +408,7 @@ def translate(repo, gen_dir):
          params=(("ev", "Q"), ("tol", "Q")), want="bool", rtype="bool")
 
     # ================================================================ wiring tables
-    defs.append("(* src: the keywords of the constructor call `cls(...)` of every from_gmat, resolved to what they read *)\n"
+    defs.append("(* src: the keywords of the constructor call `cls(...)` of every from_gmat and the group-metadata attributes set on the new object, resolved to what they read *)\n"
                 "Definition k_labels : list (string * list (string * string)) :=\n  [%s].\n"
                 % ";\n   ".join("(%s, %s)" % (coq_str(t), coq_pairs(p)) for t, p in labels))
     fac = []
